@@ -53,9 +53,10 @@ type entry struct {
 	Note   string
 	// served: the honest block this answer was derived from, and what it still shares with it
 	Orig     felt.Felt
-	RootSame bool // claimed roots (header GlobalStateRoot, state update OldRoot/NewRoot) are the honest block's
-	DiffSame bool // state diff and declared classes are the honest block's
-	Sane     bool // passes SanityCheckNewHeight (honest blocks and self-consistent forged ones)
+	RootSame bool   // claimed roots (header GlobalStateRoot, state update OldRoot/NewRoot) are the honest block's
+	DiffSame bool   // state diff and declared classes are the honest block's
+	Sane     bool   // passes SanityCheckNewHeight (honest blocks and self-consistent forged ones)
+	Ver      string // served: the protocol version string of the answer
 }
 
 type headRec struct {
@@ -87,6 +88,8 @@ type recorder struct {
 	returned           bool                                    // Run of the current instance has returned (no new instance yet)
 	afterReturn        string                                  // first activity of the synchroniser seen while `returned`
 	checkStored        func(num uint64, hash felt.Felt) string // "" = content equals the valid block
+	fetchCalls         []*fetchCall                            // (feeder mode) BlockByNumber calls of the real data source
+	ops                map[string]int                          // listener callbacks of isReverting, per exit level
 }
 
 func newRecorder() *recorder {
@@ -109,6 +112,14 @@ func (r *recorder) add(e entry) {
 	r.mu.Lock()
 	r.log = append(r.log, e)
 	r.mu.Unlock()
+}
+
+// addIdx logs e and returns its position in the log.
+func (r *recorder) addIdx(e entry) int {
+	r.mu.Lock()
+	defer r.mu.Unlock()
+	r.log = append(r.log, e)
+	return len(r.log) - 1
 }
 
 // head returns the tracked head (ok=false on an empty chain).
